@@ -316,7 +316,7 @@ func genG(ch *vs.Choices, b gBias) *gProg {
 			}
 		}
 		t.DynVar = b.DynVars && ch.Bool(1, 2)
-		t.DynFail = b.DynVars && b.PGuard > 0 && ch.Bool(1, 12)
+		t.DynFail = b.DynVars && (b.PGuard > 0 || b.FailMix) && ch.Bool(1, 12)
 		t.DynCount = b.DynCount && ch.Bool(1, 3)
 		t.Wild = b.Wildcards && ch.Bool(1, 5)
 		if b.VEnvSub && t.Run == "when_changed" && ch.Bool(1, 2) {
@@ -736,6 +736,9 @@ func probeText(p *gProg, t *gTask, idx int, c gCmd) string {
 	if t.PrintXC {
 		extra += "|XC={{.XC}}"
 	}
+	if t.DynVar {
+		extra += "|DYN={{.DYN}}"
+	}
 	if t.Wild {
 		extra += "|M={{if .MATCH}}{{index .MATCH 0}}{{end}}" // (listing compiles the task without a match)
 	}
@@ -899,7 +902,7 @@ func (p *gProg) render(lo, hi int, root bool) string {
 			tvars = append(tvars, fmt.Sprintf("DYN:\n        sh: echo dyn-%s", t.Name))
 		}
 		if t.DynFail {
-			tvars = append(tvars, "DF:\n        sh: exit 3")
+			tvars = append(tvars, "DF:\n        sh: echo partial-output; exit 3") // (what a failing command printed belongs to nobody)
 		}
 		if t.DynCount {
 			f := "{{.ROOT_DIR}}/cnt-" + strings.ReplaceAll(t.Name, ":", "-")
